@@ -370,7 +370,8 @@ def check_rendering(cssutils, sid, params):
 def run_statement(sid, mode):
     """mode 'uniform': u x r x case x quote x escape in full, no special gap;
             'gap': every gap with every filler, everything else canonical;
-            'full': the whole product (thorough)"""
+            thorough adds 'gap-case' (gap x filler x case x quote), 'gap-uniform' (gap x filler x uniform fillers),
+            'gap-escape' (gap x filler x escaped token x style)"""
     cssutils = common.setup_lifted()
     from sx.core import fresh_int
     tokens = STATEMENTS[sid][1]
@@ -378,15 +379,19 @@ def run_statement(sid, mode):
 
     def fn():
         params = dict(u=0, g=-1, v=0, r=0, case=0, quote=0, esc_index=-1, esc_style=0)
-        if mode in ('uniform', 'full'):
+        dims = {'uniform': 'urcqe', 'gap': 'g', 'gap-case': 'gcq', 'gap-uniform': 'gur', 'gap-escape': 'ge'}[mode]
+        if 'u' in dims:
             params['u'] = fresh_int('u', 0, len(OPT_FILLERS) - 1)
+        if 'r' in dims:
             params['r'] = fresh_int('r', 0, len(REQ_FILLERS) - 1)
+        if 'c' in dims:
             params['case'] = fresh_int('case', 0, len(CASES) - 1)
+        if 'q' in dims:
             params['quote'] = fresh_int('quote', 0, 1)
-            if nn:
-                params['esc_index'] = fresh_int('esc_index', 0, nn - 1)
-                params['esc_style'] = fresh_int('esc_style', 0, len(ESCAPES) - 1)
-        if mode in ('gap', 'full') and ng:
+        if 'e' in dims and nn:
+            params['esc_index'] = fresh_int('esc_index', 0, nn - 1)
+            params['esc_style'] = fresh_int('esc_style', 1, len(ESCAPES) - 1)
+        if 'g' in dims and ng:
             params['g'] = fresh_int('g', 0, ng - 1)
             params['v'] = fresh_int('v', 0, len(OPT_FILLERS) - 1)
         inputs = dict(params, sid=sid)
@@ -440,11 +445,11 @@ def run_pairs(a):
 def jobs(tier):
     out = []
     for sid in IDS:
-        if tier == 'quick':
-            out.append(('harness.c02', 'run_statement', dict(sid=sid, mode='uniform')))
-            out.append(('harness.c02', 'run_statement', dict(sid=sid, mode='gap')))
-        else:
-            out.append(('harness.c02', 'run_statement', dict(sid=sid, mode='full')))
+        out.append(('harness.c02', 'run_statement', dict(sid=sid, mode='uniform')))
+        out.append(('harness.c02', 'run_statement', dict(sid=sid, mode='gap')))
+        if tier != 'quick':
+            for mode in ('gap-case', 'gap-uniform', 'gap-escape'):
+                out.append(('harness.c02', 'run_statement', dict(sid=sid, mode=mode)))
         out.append(('harness.c02', 'run_pairs', dict(a=sid)))
     return out
 
@@ -460,8 +465,8 @@ def main(tier):
     rep.bounds = {'statements': '%d statements (harness/c02.py STATEMENTS); renderings: optional-gap filler %r, required-gap filler %r, case %r, '
                                 'quote %r, one escaped name character in style %r, one special gap with its own filler; %s'
                                 % (len(IDS), OPT_FILLERS, REQ_FILLERS, CASES, QUOTES, ESCAPES,
-                                   'quick: (uniform fillers x case x quote x escape) and (every gap x every filler) separately' if tier == 'quick'
-                                   else 'the full product'),
+                                   'explored as (uniform fillers x case x quote x escape) and (every gap x every filler)' + ('' if tier == 'quick' else
+                                   ', plus (gap x filler x case x quote), (gap x filler x uniform fillers), (gap x filler x escaped token x style)')),
                   'pairs': 'every ordered pair of statements in one sheet, six separators'}
     rep.assumptions = ['finite-choice renderings: solver-driven enumeration (leverage about 1)',
                        'SUMMARY structures in harness/c02.py are the independently written meaning of each statement',
